@@ -34,6 +34,10 @@ class BreakSig(Exception):
     pass
 
 
+class ContinueSig(Exception):
+    pass
+
+
 class PanicSig(Exception):
     def __init__(self, why, ln):
         self.why = why
@@ -688,6 +692,17 @@ class Exec:
     def e_if(self, e, frame):
         c = e["cond"]
         if c["k"] == "let":
+            v = self.expr(c["e"], frame)
+            pat = c["pat"]
+            if isinstance(v, Opt) and pat["k"] == "ptuplestruct" and pat["path"][-1] == "Some" and len(pat["elems"]) == 1:
+                if v.some:
+                    self.bind(frame, pat["elems"][0], v.v)
+                    return self.block(e["then"], frame)
+                return self.expr(e["else"], frame) if e["else"] is not None else UNIT
+            if isinstance(v, Opt) and pat["k"] in ("ppath", "pident") and (pat.get("path", [pat.get("name")])[-1] == "None"):
+                if not v.some:
+                    return self.block(e["then"], frame)
+                return self.expr(e["else"], frame) if e["else"] is not None else UNIT
             raise Unsupported("if let at line %s" % e.get("ln"))
         cv = self.expr(c, frame)
         if self.truth(cv, e.get("ln")):
@@ -698,6 +713,19 @@ class Exec:
 
     def e_match(self, e, frame):
         v = self.expr(e["e"], frame)
+        if isinstance(v, Opt):
+            for arm in e["arms"]:
+                p = arm["pat"]
+                if arm["guard"] is not None:
+                    raise Unsupported("match guard")
+                if p["k"] == "pwild":
+                    return self.expr(arm["body"], frame)
+                if p["k"] == "ptuplestruct" and p["path"][-1] == "Some" and v.some:
+                    self.bind(frame, p["elems"][0], v.v)
+                    return self.expr(arm["body"], frame)
+                if p["k"] in ("ppath", "pident") and (p.get("path", [p.get("name")])[-1] == "None") and not v.some:
+                    return self.expr(arm["body"], frame)
+            raise Unsupported("non-exhaustive match on Option at line %s" % e.get("ln"))
         if not isinstance(v, T):
             raise Unsupported("match on non-integer at line %s" % e.get("ln"))
         for arm in e["arms"]:
@@ -725,7 +753,10 @@ class Exec:
             try:
                 for item in seq:
                     self.bind(frame, e["pat"], tuple(item) if isinstance(it, ZipIter) else item)
-                    self.block(e["body"], frame)
+                    try:
+                        self.block(e["body"], frame)
+                    except ContinueSig:
+                        pass
             except BreakSig:
                 pass
             return UNIT
@@ -738,10 +769,27 @@ class Exec:
         try:
             for i in range(a, b):
                 self.bind(frame, e["pat"], T.num(i, INT))
-                self.block(e["body"], frame)
+                try:
+                    self.block(e["body"], frame)
+                except ContinueSig:
+                    pass
         except BreakSig:
             pass
         return UNIT
+
+    def e_while(self, e, frame):
+        try:
+            for _ in range(256):
+                c = self.expr(e["cond"], frame)
+                if not self.truth(c, e.get("ln")):
+                    return UNIT
+                try:
+                    self.block(e["body"], frame)
+                except ContinueSig:
+                    pass
+        except BreakSig:
+            return UNIT
+        raise Unsupported("while loop did not terminate within 256 symbolic iterations at line %s" % e.get("ln"))
 
     def e_range(self, e, frame):
         lo = self.expr(e["lo"], frame) if e["lo"] else None
@@ -765,6 +813,9 @@ class Exec:
 
     def e_break(self, e, frame):
         raise BreakSig()
+
+    def e_continue(self, e, frame):
+        raise ContinueSig()
 
     def e_struct(self, e, frame):
         name = e["path"][-1]
@@ -860,6 +911,13 @@ class Exec:
             return self.lib_float(name, args, ln)
         if owner in ("i64", "usize", "u64", "f64") and name in ("conv", "conv_nearest"):
             return self.lib_conv(owner, name, args[0], ln)
+        if owner in ("f64", "u64", "usize", "i64") and name == "from":
+            v = self.deref(args[0]) if isinstance(args[0], Ref) else args[0]
+            if isinstance(v, T):
+                return real(v) if owner == "f64" else v
+        if owner == "f64" and name in ("sqrt", "abs", "ceil", "max", "min", "powi", "recip", "mul_add", "signum", "powf", "is_nan"):
+            recv = self.deref(args[0]) if isinstance(args[0], Ref) else args[0]
+            return self.lib_num_method(name, recv, args[1:], ln)
         if owner == "Default" and name == "default":
             raise Unsupported("Default::default() without type at line %s" % ln)
         raise Unsupported("call %s at line %s" % ("::".join(segs), ln))
@@ -952,6 +1010,27 @@ class Exec:
             return TRUE if tm.mentions(x, ("NAN",)) else FALSE
         if m == "sqrt":
             return self.lib_float("sqrt", [x], ln)
+        if m in ("signum", "powf"):
+            return self.lib_float(m, [x] + list(args), ln)
+        if m == "powi":
+            k = args[0]
+            if isinstance(k, T) and k.is_num() and k.value().denominator == 1 and k.value() >= 0:
+                return tm.NAN if tm.mentions(x) else x ** int(k.value())
+            raise Unsupported("powi with a non-constant / negative exponent at line %s" % ln)
+        if m == "recip":
+            return self.arith("/", T.num(1, REAL), x, ln)
+        if m == "mul_add":
+            # exact reals: fused multiply-add is a*b + c
+            return self.arith("+", self.arith("*", x, args[0], ln), args[1], ln)
+        if m == "clamp":
+            lo, hi = args
+            return self.lib_minmax([self.lib_minmax([x, lo], ln, False), hi], ln, True)
+        if m in ("is_finite",):
+            return FALSE if tm.mentions(x) else TRUE
+        if m in ("is_infinite",):
+            return TRUE if (tm.mentions(x, ("INF",)) and not tm.mentions(x, ("NAN",))) else FALSE
+        if m in ("into", "to_owned"):
+            return x
         raise Unsupported("numeric method %s at line %s" % (m, ln))
 
     def lib_minmax(self, args, ln, is_min):
